@@ -25,6 +25,7 @@ materializing the defaulted values can make the configuration archive somewhat
 more hermetic.
 """
 
+import dataclasses
 from typing import Any
 
 from fiddle._src import config
@@ -55,6 +56,16 @@ def materialize_defaults(value: Any) -> None:
       parameters = node.__signature_info__.parameters.values()
       positional_gap = False  # An earlier positional-only argument is unset.
       for index, arg in enumerate(parameters):
+        if (
+            dataclasses.is_dataclass(node.__fn_or_cls__)
+            and arg.default is not arg.empty
+            and config._field_uses_default_factory(  # pylint: disable=protected-access
+                node.__fn_or_cls__, arg.name
+            )
+        ):
+          # The signature's default is a placeholder object for the factory,
+          # not a value: there is nothing to materialize.
+          continue
         if arg.default is arg.empty:
           if (
               arg.kind == arg.POSITIONAL_ONLY
